@@ -740,4 +740,12 @@ def r06_8(ctx):
     return o
 
 
-RULES = [r06_1, r06_2, r06_3, r06_4, r06_5, r06_6, r06_7, r06_8]
+def r06_9(ctx):
+    from rules import C01
+    o = C01.r01_2(ctx)
+    o.rule = "R06.9"
+    o.text = ("the pieces from which a result is assembled are the right ones and are addressed consistently: every selected (curve, segment) index refers to the curve list handed to follow_path, also when a curve of an operand contributes no piece (same analysis as R01.2)")
+    return o
+
+
+RULES = [r06_1, r06_2, r06_3, r06_4, r06_5, r06_6, r06_7, r06_8, r06_9]
